@@ -6,12 +6,16 @@ package c20
 import (
 	"fmt"
 	"io"
+	"net/http"
 	"os"
 	"path"
+	"path/filepath"
+	"runtime"
 	"sort"
 	"strings"
 	"sync"
 	"testing/fstest"
+	"time"
 
 	"github.com/flosch/pongo2/v6"
 	"github.com/flosch/pongo2/v6/vsched"
@@ -114,7 +118,12 @@ type hworld struct {
 	gets    func(si int, key string) int
 	setFile func(key, content string)
 	setFail func(key string, fail bool)
+	close   func() // removes what the world put on disk (nil: nothing)
 }
+
+// fixedTime: every file of the "local" worlds carries this modification time, before and after a change of its
+// content (what cp -p, rsync -t or a coarse file-system clock produce); a change also keeps the size
+var fixedTime = time.Date(2020, 1, 2, 3, 4, 5, 0, time.UTC)
 
 type countingLoader struct {
 	inner pongo2.TemplateLoader
@@ -133,7 +142,48 @@ func (l *countingLoader) Get(p string) (io.Reader, error) {
 
 func newHistWorld(kind string) *hworld {
 	w := &hworld{}
-	if kind == "fs" {
+	if kind == "local" {
+		// pongo2's LocalFilesystemLoader over a scratch directory per set (exists while the case runs)
+		var ls [2]*countingLoader
+		var dirs [2]string
+		write := func(i int, name, content string) {
+			p := filepath.Join(dirs[i], name)
+			if err := os.WriteFile(p, []byte(content), 0o644); err != nil {
+				panic("c20: cannot write " + p + ": " + err.Error())
+			}
+			os.Chtimes(p, fixedTime, fixedTime)
+		}
+		for i := 0; i < 2; i++ {
+			d, err := os.MkdirTemp("", "verif-c20-")
+			if err != nil {
+				panic("c20: no scratch directory: " + err.Error())
+			}
+			dirs[i] = d
+			for _, n := range []string{"a", "b", "c"} {
+				write(i, n, richSrc(n, 1))
+			}
+			write(i, "inc", fmt.Sprintf("I%d", i+1))
+			write(i, "lib", fmt.Sprintf("{%% macro lm() export %%}L%d{%% endmacro %%}", i+1))
+			ls[i] = &countingLoader{inner: pongo2.MustNewLocalFileSystemLoader(d), gets: map[string]int{}, fail: map[string]bool{}}
+			w.sets[i] = pongo2.NewSet(fmt.Sprint("c20-local-", i), ls[i])
+		}
+		w.keyOf = func(raw string) string { return path.Clean(raw) }
+		w.gets = func(si int, key string) int { return ls[si].gets[filepath.Join(dirs[si], key)] }
+		w.setFile = func(key, content string) {
+			for i := 0; i < 2; i++ {
+				write(i, key, content)
+			}
+		}
+		w.setFail = func(key string, fail bool) {
+			for i := 0; i < 2; i++ {
+				ls[i].fail[filepath.Join(dirs[i], key)] = fail
+			}
+		}
+		w.close = func() {
+			os.RemoveAll(dirs[0])
+			os.RemoveAll(dirs[1])
+		}
+	} else if kind == "fs" {
 		var ls [2]*countingLoader
 		var fss [2]fstest.MapFS
 		for i := 0; i < 2; i++ {
@@ -215,6 +265,9 @@ func (c *HistCase) Exec(t *eng.T) {
 	}
 	t.Nontrivial()
 	w := newHistWorld(c.Loader)
+	if w.close != nil {
+		defer w.close()
+	}
 	m := &model{version: map[string]int{}, failing: map[string]bool{}}
 	for _, n := range []string{"a", "b", "c"} {
 		m.version[w.keyOf(n)] = 1
@@ -583,6 +636,168 @@ func (c *ConcCase) Exec(t *eng.T) {
 	}
 }
 
+// ---------- concurrent loads through pongo2's own loaders ----------
+
+// ConcLoaderCase: two sets with loaders of their own (pongo2's FSLoader or HttpFilesystemLoader over separate
+// in-memory file systems, or LocalFilesystemLoader over scratch directories); every thread loads one file through
+// one of the sets. The wrapper around each loader yields to the scheduler AFTER the inner loader has handed out
+// its reader and before pongo2 reads it, so what one load does to a reader another load still holds is explored.
+type ConcLoaderCase struct {
+	Loader string   `json:"loader"` // fs | http | local
+	Ops    []string `json:"ops"`    // one per thread: FC(set,name) / FF(set,name) (FromFile)
+	Bound  int      `json:"bound"`
+}
+
+func (c *ConcLoaderCase) ID() string {
+	return fmt.Sprintf("%s loaders: %s bound=%d", c.Loader, strings.Join(c.Ops, " || "), c.Bound)
+}
+
+type yieldingLoader struct {
+	inner  pongo2.TemplateLoader
+	seamed bool
+}
+
+func (l *yieldingLoader) Abs(base, name string) string { return l.inner.Abs(base, name) }
+func (l *yieldingLoader) Get(p string) (io.Reader, error) {
+	r, err := l.inner.Get(p)
+	if l.seamed {
+		vsched.PointHere("loader returned the reader of " + p)
+	}
+	return r, err
+}
+
+// texts of different lengths, so that a reader over foreign bytes is seen in the rendering
+func loaderText(si int, name string) string {
+	return fmt.Sprintf("set%d:%s:%s", si+1, name, strings.Repeat(name, 3+2*si+len(name)))
+}
+
+func (c *ConcLoaderCase) world(seamed bool) (sets [2]*pongo2.TemplateSet, done func()) {
+	var dirs []string
+	for i := 0; i < 2; i++ {
+		m := fstest.MapFS{}
+		for _, n := range []string{"a", "bb"} {
+			m[n] = &fstest.MapFile{Data: []byte(loaderText(i, n))}
+		}
+		var inner pongo2.TemplateLoader
+		switch c.Loader {
+		case "fs":
+			inner = pongo2.NewFSLoader(m)
+		case "http":
+			inner = pongo2.MustNewHttpFileSystemLoader(http.FS(m), "")
+		case "local":
+			d, err := os.MkdirTemp("", "verif-c20-")
+			if err != nil {
+				panic("c20: no scratch directory: " + err.Error())
+			}
+			dirs = append(dirs, d)
+			for _, n := range []string{"a", "bb"} {
+				os.WriteFile(filepath.Join(d, n), []byte(loaderText(i, n)), 0o644)
+			}
+			inner = pongo2.MustNewLocalFileSystemLoader(d)
+		}
+		sets[i] = pongo2.NewSet(fmt.Sprint("c20-loader-", i), &yieldingLoader{inner: inner, seamed: seamed})
+	}
+	return sets, func() {
+		for _, d := range dirs {
+			os.RemoveAll(d)
+		}
+	}
+}
+
+func (c *ConcLoaderCase) body(sets [2]*pongo2.TemplateSet, op string) func() any {
+	args := strings.Split(strings.TrimSuffix(op[3:], ")"), ",")
+	si := int(args[0][0] - '1')
+	return func() any {
+		var tp *pongo2.Template
+		var err error
+		if strings.HasPrefix(op, "FF(") {
+			tp, err = sets[si].FromFile(args[1])
+		} else {
+			tp, err = sets[si].FromCache(args[1])
+		}
+		if err != nil {
+			return "ERR " + err.Error()
+		}
+		return px.Exec(tp, nil).String()
+	}
+}
+
+func (c *ConcLoaderCase) Exec(t *eng.T) {
+	t.Nontrivial()
+	if os.Getenv("VERIF_RACEPASS") != "" {
+		// free-running, under the race detector
+		for rep := 0; rep < 100; rep++ {
+			sets, done := c.world(false)
+			var wg sync.WaitGroup
+			res := make([]string, len(c.Ops))
+			for i, op := range c.Ops {
+				wg.Add(1)
+				b := c.body(sets, op)
+				go func(i int) { defer wg.Done(); res[i] = fmt.Sprint(b()) }(i)
+			}
+			wg.Wait()
+			done()
+			t.AddStates(1)
+			for i, op := range c.Ops {
+				if want := c.want(op); res[i] != want {
+					t.Fail("loader-mixup:"+c.Loader, "free-running repetition %d: %s returned %q, want %q [%s]", rep, op, res[i], want, c.ID())
+					return
+				}
+			}
+		}
+		t.Outcome("race-pass")
+		return
+	}
+	// sync.Pool and similar per-P caches of the runtime are outside the scheduler's control: one P makes what they
+	// hand out a function of the schedule alone
+	defer runtime.GOMAXPROCS(runtime.GOMAXPROCS(1))
+	var cleanup []func()
+	sc := xplore.Scenario{Name: "loader-mixup:" + c.Loader, Make: func() ([]func() any, [][2]uintptr, func([]any) string) {
+		sets, done := c.world(true)
+		cleanup = append(cleanup, done)
+		var bodies []func() any
+		for _, op := range c.Ops {
+			bodies = append(bodies, c.body(sets, op))
+		}
+		roots := map[string]any{"set1": sets[0], "set2": sets[1]}
+		for _, v := range pongo2.VerifPkgVars() {
+			roots["pkg."+v.Name] = v.Ptr
+		}
+		judge := func(res []any) string {
+			for i, op := range c.Ops {
+				if got, want := fmt.Sprint(res[i]), c.want(op); got != want {
+					return fmt.Sprintf("%s returned a template that renders %q, the file it names holds %q", op, got, want)
+				}
+			}
+			return ""
+		}
+		return bodies, deep.Ranges(roots), judge
+	}}
+	st := xplore.Explore(sc, c.Bound, 20000, t.Heartbeat)
+	for _, f := range cleanup {
+		f()
+	}
+	t.AddStates(int64(st.Schedules))
+	t.AddTransitions(int64(st.Points))
+	t.AddExtra("distinct_interleavings_executed", int64(len(st.DistinctTraces)))
+	if !st.Complete {
+		t.AddExtra("scenarios_capped", 1)
+	}
+	t.Outcome(fmt.Sprint(st.Schedules > 1))
+	for _, f := range st.Findings {
+		if f.Kind == "nondeterministic" {
+			t.AddExtra("scenarios_with_nondeterministic_replay", 1)
+			continue
+		}
+		t.Fail(f.Key, "%s [%s] schedule=%v", f.Desc, c.ID(), f.Schedule)
+	}
+}
+
+func (c *ConcLoaderCase) want(op string) string {
+	args := strings.Split(strings.TrimSuffix(op[3:], ")"), ",")
+	return "ok \"" + loaderText(int(args[0][0]-'1'), args[1]) + "\""
+}
+
 func run(r *eng.Runner) {
 	depth := 5
 	if !r.Quick() {
@@ -608,6 +823,18 @@ func run(r *eng.Runner) {
 		r.Do(&HistCase{Ops: ops, Loader: "fs"})
 		return !r.Stopped()
 	})
+	// and over pongo2's LocalFilesystemLoader on real files whose size and modification time stay the same when their
+	// content changes
+	localOps := []string{"FC(1,a)", "FC(1,b)", "FC(2,a)", "FC(1,./a)", "CC(1)", "CC(1,a)", "CC(2)", "DBG(1)", "CHG(a)"}
+	r.Group("sequential-histories-localfs", "c20.hist", fmt.Sprintf("every history of 0..%d operations over %d operations on two sets whose loader is pongo2's LocalFilesystemLoader over a scratch directory; a change of a file's content keeps its size and its modification time", depth-1, len(localOps)))
+	enum.Seqs(len(localOps), depth-1, func(idx []int) bool {
+		ops := make([]string, len(idx))
+		for i, x := range idx {
+			ops[i] = localOps[x]
+		}
+		r.Do(&HistCase{Ops: ops, Loader: "local"})
+		return !r.Stopped()
+	})
 	if r.Shard == 0 {
 		r.AddStates(1)
 	}
@@ -628,6 +855,20 @@ func run(r *eng.Runner) {
 	bound, maxS := 2, 20000
 	if !r.Quick() {
 		bound, maxS = 3, 300000
+	}
+	r.Group("concurrent-loaders", "c20.concloader", fmt.Sprintf("two (thorough: also three) threads, each loading one file (FromCache / FromFile) through one of two sets that have loaders of their own - pongo2's FSLoader, HttpFilesystemLoader, LocalFilesystemLoader - with a scheduling point between the loader handing out its reader and pongo2 reading it: ALL schedules up to %d preemptions; every returned template renders the text of the file it names", bound))
+	lops := []string{"FC(1,a)", "FC(1,bb)", "FC(2,a)", "FC(2,bb)", "FF(1,a)", "FF(2,bb)"}
+	for _, kind := range []string{"fs", "http", "local"} {
+		for i := range lops {
+			for j := i; j < len(lops); j++ {
+				r.Do(&ConcLoaderCase{Loader: kind, Ops: []string{lops[i], lops[j]}, Bound: bound})
+				if !r.Quick() {
+					for k := j; k < len(lops); k++ {
+						r.Do(&ConcLoaderCase{Loader: kind, Ops: []string{lops[i], lops[j], lops[k]}, Bound: 2})
+					}
+				}
+			}
+		}
 	}
 	r.Group("concurrent-2", "c20.conc", fmt.Sprintf("two threads, each running one of the %d operation lists of length 1..2 over {FromCache(a), FromCache(b), CleanCache(), CleanCache(a)} on one set: ALL schedules up to %d preemptions (scheduling points: the cache mutex, loader I/O, stores into the set); every schedule must be linearisable w.r.t. the cache model (object identity classes and number of loads), race-free and deadlock-free", len(progs), bound))
 	for i, p1 := range progs {
@@ -672,6 +913,7 @@ func run(r *eng.Runner) {
 func init() {
 	eng.RegisterCase("c20.hist", func() eng.Case { return &HistCase{} })
 	eng.RegisterCase("c20.conc", func() eng.Case { return &ConcCase{} })
+	eng.RegisterCase("c20.concloader", func() eng.Case { return &ConcLoaderCase{} })
 	eng.Register(&eng.Check{
 		ID:    "C20",
 		Title: "Template cache: one compile per name, coherent under concurrency",
